@@ -1202,6 +1202,12 @@ func collectCallNames(instrs []ssa.Instruction, names map[string]bool, seen map[
 		case *ssa.Select:
 			names["select"] = true
 			continue
+		case *ssa.Lookup:
+			names["maplookup"] = true
+			continue
+		case *ssa.MapUpdate:
+			names["mapupdate"] = true
+			continue
 		case *ssa.MakeClosure:
 			fn := x.Fn.(*ssa.Function)
 			if !seen[fn] && depth < 7 {
